@@ -394,7 +394,7 @@ Proof. exact sx_theorem_applies. Qed.
      - inherited names allowed; hypotheses on calls, globals, debug attributes, budget as before.
    NOT covered: a value containing a scoped read as argument of a call, element of a set, or in an eager position (see Step 4); definitions whose scope is not
    a capture; a shorthand attribute whose value contains a scoped read.
-   PROOF (Proofs/ScTh*.v, 8 files): the evaluation phase is that of Step 4 unchanged (the reference evaluator never assumed anything about thunk bodies;
+   PROOF (Proofs/ScTh*.v, 9 files): the evaluation phase is that of Step 4 unchanged (the reference evaluator never assumed anything about thunk bodies;
    Proofs/ScPermEvalSwap.v now depends on the typing only through the interface `evty`).  The execution phase is redone: store locations have a KIND (L: body local
    to the block, scoped-free, forced at will; M: any `texpr` value, never forced during execution, never mentioned by an untainted value), carried as a ghost list
    in the two-run relation; the simulation of the whole interpreter is indexed by (graph size, kinds). *)
